@@ -33,6 +33,6 @@ package logger
 //@   blocks
 //@   modifies bytes.*, bufio.*
 //@   init answerOK := false
-//@   site slices.Contains#1 requires arg0 == continueValues                                                    [C20,C13]
+//@   site slices.Contains#0 requires arg0 == continueValues                                                    [C20,C13]
 //@   site slices.Contains#1 ghost answerOK := result
 //@   ensures result == nil ==> l.AssumeYes || answerOK                                                         [C20,C13]
